@@ -214,6 +214,7 @@ class FnTr:
         self.attr_vars = dict(spec.get("attrs", {}))     # ('self', 'count_prince') -> python-level variable name
         self.item_vars = dict(spec.get("items", {}))     # ('program_info', 'coverage') -> variable name
         self.opaque_params = set(spec.get("opaque", []))
+        self.opaque_locals = set()                       # locals bound to a value the translator does not look into
 
     # -------------------------------------------------------------- errors, names, text
     def fail(self, node, msg):
@@ -253,6 +254,10 @@ class FnTr:
         env.owned.discard(name)
         if owned:
             env.owned.add(name)
+        if ty == OPAQUE:
+            self.opaque_locals.add(name)
+        else:
+            self.opaque_locals.discard(name)
         # a refinement that mentions the rebound variable is no longer valid
         for k in [k for k in env.refine if ("id='%s'" % name) in k]:
             del env.refine[k]
@@ -387,7 +392,7 @@ class FnTr:
         if isinstance(e, ast.Constant):
             return True
         if isinstance(e, ast.Name):
-            return e.id in self.opaque_params
+            return e.id in self.opaque_params or e.id in self.opaque_locals
         if isinstance(e, (ast.List, ast.Tuple)):
             return all(self.is_opaque_expr(x) for x in e.elts)
         if isinstance(e, ast.Dict):
@@ -461,6 +466,8 @@ class FnTr:
         if isinstance(e, ast.List):
             if not e.elts:
                 return "[]", LIST(UNKNOWN)
+            if any(isinstance(x, (ast.Dict, ast.List, ast.Tuple)) for x in e.elts) and self.is_opaque_expr(e):
+                return "tt", OPAQUE
             ts = [self.expr(x, env) for x in e.elts]
             ty = ts[0][1]
             if any(t2 != ty for _, t2 in ts):
@@ -469,6 +476,8 @@ class FnTr:
         if isinstance(e, ast.Dict):
             if not e.keys:
                 return "[]", DICT(UNKNOWN, UNKNOWN)
+            if self.is_opaque_expr(e):
+                return "tt", OPAQUE
             items, kt, vt = [], None, None
             seen = set()
             for kn, vn in zip(e.keys, e.values):
@@ -684,6 +693,15 @@ class FnTr:
     def call_expr(self, e, env):
         f = e.func
         d = dotted(f)
+        if d == ("json", "dumps") and len(e.args) == 1 and not e.keywords:
+            t, ty = self.expr(e.args[0], env)
+            if ty == LIST(KEY):
+                return "VNames %s" % _paren(t), CVAL
+            if ty == LIST(STR):
+                return "VNames (map KStr %s)" % _paren(t), CVAL
+            if ty == OPAQUE:
+                return "tt", OPAQUE
+            self.fail(e, "json.dumps of a %s" % type_name(ty))
         if self.is_opaque_expr(e):
             return "tt", OPAQUE
         if d == ("str",) and len(e.args) == 1 and not e.keywords:
@@ -717,13 +735,6 @@ class FnTr:
                     self.fail(a, "os.path.join with a %s" % type_name(tn))
                 t = "path_join %s %s" % (_paren(t), _paren(n))
             return t, PATH
-        if d == ("json", "dumps") and len(e.args) == 1 and not e.keywords:
-            t, ty = self.expr(e.args[0], env)
-            if ty == LIST(KEY):
-                return "VNames %s" % _paren(t), CVAL
-            if ty == LIST(STR):
-                return "VNames (map KStr %s)" % _paren(t), CVAL
-            self.fail(e, "json.dumps of a %s" % type_name(ty))
         if d is not None and len(d) == 1 and d[0] in self.group.ctx_funs and not e.keywords:
             params, ret = self.group.ctx_funs[d[0]]
             if len(e.args) != len(params):
@@ -847,7 +858,7 @@ class FnTr:
     def seq(self, ind, text, rest_text, s=None):
         """pending binds, then `text` (a let / bind line, or empty), then the rest"""
         pre, n = self.flush(ind)
-        out = pre + (self.line(ind, text, s) if text else "") + rest_text
+        out = pre + (self.line(ind, text, s) if text else "") + (rest_text() if callable(rest_text) else rest_text)
         return _close(out, ")" * n) if n else out
 
     def result_text(self, env, retval):
@@ -975,7 +986,7 @@ class FnTr:
                 if not (isinstance(ty, tuple) and ty[0] == "tuple"):
                     self.fail(s, "unpacking of a %s" % type_name(ty))
                 b = self.pattern(t, ty, env)
-                return self.seq(ind, "let %s := %s in" % (b, text), self.block(rest, env, k, ind), s)
+                return self.seq(ind, "let %s := %s in" % (b, text), lambda: self.block(rest, env, k, ind), s)
             name = tv if tv is not None else t.id
             if tv is not None:
                 if ty != env.types[tv]:
@@ -986,7 +997,7 @@ class FnTr:
                     env.owned.discard(tv)
             else:
                 c = self.bind_var(t, name, ty, env, owned)
-            return self.seq(ind, "let %s := %s in" % (c, text), self.block(rest, env, k, ind), s)
+            return self.seq(ind, "let %s := %s in" % (c, text), lambda: self.block(rest, env, k, ind), s)
         if isinstance(t, ast.Subscript):
             d = self.var_of(t.value, env)
             self.mutable(s, d, env)
@@ -1012,7 +1023,7 @@ class FnTr:
                 src = self.var_of(v, env)
                 if src is not None:
                     env.owned.discard(src)
-                return self.seq(ind, line, self.block(rest, env, k, ind), s)
+                return self.seq(ind, line, lambda: self.block(rest, env, k, ind), s)
             if isinstance(td, tuple) and td[0] == "list":
                 i, ti = self.expr(t.slice, env)
                 val, tval = self.expr(v, env)
@@ -1043,7 +1054,7 @@ class FnTr:
                 text = "nadd O %s %s" % (cx, _paren(self.number(s, v, tv)))
             else:
                 self.fail(s, "+= of a %s to a %s" % (type_name(tv), type_name(tx)))
-            return self.seq(ind, "let %s := %s in" % (cx, text), self.block(rest, env, k, ind), s)
+            return self.seq(ind, "let %s := %s in" % (cx, text), lambda: self.block(rest, env, k, ind), s)
         if isinstance(t, ast.Subscript):
             d = self.var_of(t.value, env)
             self.mutable(s, d, env)
@@ -1057,7 +1068,7 @@ class FnTr:
                 self.fail(s, "counter[%s] += %s" % (type_name(tk), type_name(tn)))
             cd = env.names[d]
             return self.seq(ind, "let %s := cnt_add %s %s %s in" % (cd, _paren(key), _paren(n), cd),
-                            self.block(rest, env, k, ind), s)
+                            lambda: self.block(rest, env, k, ind), s)
         self.fail(s, "unsupported target of +=")
 
     # ----- expression statements
@@ -1096,7 +1107,7 @@ class FnTr:
                 return _close(out, ")" * (n + 1))
             if f.attr == "clear" and not c.args and not c.keywords and isinstance(tr, tuple) and tr[0] in ("dict", "list"):
                 self.mutable(s, recv, env)
-                return self.seq(ind, "let %s := [] in" % cr, self.block(rest, env, k, ind), s)
+                return self.seq(ind, "let %s := [] in" % cr, lambda: self.block(rest, env, k, ind), s)
             if f.attr == "append" and len(c.args) == 1 and not c.keywords and isinstance(tr, tuple) and tr[0] == "list":
                 self.mutable(s, recv, env)
                 t, ty = self.expr(c.args[0], env)
@@ -1106,7 +1117,7 @@ class FnTr:
                 src = self.var_of(c.args[0], env)
                 if src is not None:
                     env.owned.discard(src)
-                return self.seq(ind, "let %s := %s ++ [%s] in" % (cr, cr, t), self.block(rest, env, k, ind), s)
+                return self.seq(ind, "let %s := %s ++ [%s] in" % (cr, cr, t), lambda: self.block(rest, env, k, ind), s)
             if tr == CONFIG and f.attr == "add_section" and len(c.args) == 1 and not c.keywords:
                 self.mutable(s, recv, env)
                 t, ty = self.expr(c.args[0], env)
@@ -1749,6 +1760,49 @@ def render_save(repo=None):
     return HEAD % (rel, SAVE_NOTE) + "\n".join(parts)
 
 
+# ====================================================================== config: the sections of config.ini
+CONFIG_NOTE = ("theories/WriterGenProofsConfig.v proves the\n"
+               "   file lists and directories of the sections equal to Counters.config_lists / config_dirs.")
+FN = LIST(KEY)
+CONFIG_SPECS = [
+    dict(py="create_filename_list", coq="py_create_filename_list", params=[("input_dictionary", KCNTS)], ret=FN),
+    dict(py="add_program_details", coq="py_add_program_details", params=[("config", CONFIG), ("program_info", OPAQUE)],
+         opaque=["program_info"]),
+    dict(py="add_dataset_details", coq="py_add_dataset_details",
+         params=[("config", CONFIG), ("program_info", OPAQUE), ("file_input", OPAQUE)], opaque=["program_info", "file_input"]),
+    dict(py="add_start", coq="py_add_start", params=[("config", CONFIG)]),
+    dict(py="add_alpha", coq="py_add_alpha", params=[("config", CONFIG), ("filenames", FN)]),
+    dict(py="add_digits", coq="py_add_digits", params=[("config", CONFIG), ("filenames", FN)]),
+    dict(py="add_other", coq="py_add_other", params=[("config", CONFIG), ("filenames", FN)]),
+    dict(py="add_keyboard", coq="py_add_keyboard", params=[("config", CONFIG), ("filenames", FN)]),
+    dict(py="add_context_sensitive", coq="py_add_context_sensitive", params=[("config", CONFIG)]),
+    dict(py="add_years", coq="py_add_years", params=[("config", CONFIG)]),
+    dict(py="add_capitalization", coq="py_add_capitalization", params=[("config", CONFIG), ("filenames", FN)]),
+    dict(py="create_config_file", coq="py_create_config_file",
+         params=[("program_info", OPAQUE), ("file_input", OPAQUE), ("pcfg_parser", PARSER)], ret=CONFIG,
+         opaque=["program_info", "file_input"]),
+]
+
+
+def render_config(repo=None):
+    rel = "lib_trainer/config_file.py"
+    path, tree = parse(repo, rel)
+    check_module(path, tree, {sp["py"] for sp in CONFIG_SPECS}, modules=("os", "json", "uuid"),
+                 from_imports=[("configparser", "ConfigParser")])
+    defs = defs_of(path, tree.body)
+    g = Group("config", "(O : numops)", "O", {})
+    parts = []
+    for spec in CONFIG_SPECS:
+        spec = dict(spec)
+        if spec["py"].startswith("add_"):
+            spec.update(ret=UNIT, inout=["config"], note="returns None; the result is the configuration it updates in place")
+        if spec["py"] not in defs:
+            raise TranslateError("%s: %s not found" % (path, spec["py"]))
+        parts.append(FnTr(path, rel, "", defs[spec["py"]], spec, g).translate())
+        g.done[spec["py"]] = spec
+    return HEAD % (rel, CONFIG_NOTE) + "\n".join(parts)
+
+
 def failure_text(name, err):
     """text written instead of the definitions when the translation fails: it must not
     compile, so that no stale generated definition survives"""
@@ -1784,6 +1838,7 @@ def write_all(repo=None):
 KERNELS = {}
 KERNELS["struct"] = (render_struct, os.path.join("gen", "WriterStruct_gen.v"))
 KERNELS["save"] = (render_save, os.path.join("gen", "Writer_gen.v"))
+KERNELS["config"] = (render_config, os.path.join("gen", "WriterConfig_gen.v"))
 
 if __name__ == "__main__":
     args = sys.argv[1:]
